@@ -394,12 +394,14 @@ impl Phase for AnyTokens {
         model.vars.insert("a".into(), RV::Int(2));
         model.vars.insert("x".into(), RV::Int(5));
         let i_mut = exec::run_impl(&src, Some(&tree), &model, Entry::TreeMut, true);
-        let i_imm = exec::run_impl(&src, Some(&tree), &model, Entry::TreeImm, false);
+        let i_imm = exec::run_impl(&src, Some(&tree), &model, Entry::TreeImm, true);
         out.evals(2);
-        if i_mut.trace.is_empty() {
+        if i_mut.trace.is_empty() && i_imm.trace.is_empty() {
             out.count("H2: hook silent (projection not decidable here)");
             return;
         }
+        // (a mutable run without a single event while the read-only run has some evaluated nothing, so it applied
+        // no assignment either: the results must agree)
         let mut nodes = std::collections::BTreeMap::new();
         index_nodes(&tree, &mut nodes);
         let reached = i_mut
